@@ -8,7 +8,7 @@ from . import common, genops
 from .common import viol
 
 ID = "C15"
-RUNS = {"quick": 3000, "thorough": 100000}
+RUNS = {"quick": 3000, "thorough": 40000}
 REAL = common.REAL
 SIMULATED = common.SIMULATED
 ASSUMPTIONS = [
@@ -87,13 +87,16 @@ def _gen_marathon(rng):
         else:
             opl.append({"op": "gen_cli", "params": dict(p, width=min(p["width"], 2), length=min(p["length"], 2)),
                         "same_process": True, "entropy": rng.randint(0, 2 ** 32)})
-    return {"cfg": {"klass": "marathon"}, "ops": opl}
+    return {"cfg": {"klass": "marathon", "fd_spare": 48}, "ops": opl}
 
 
 def gen(rng, tier, ctx):
     if rng.random() < 0.01:
         return _gen_marathon(rng)
     psets = [_bparams(rng) for _ in range(rng.randint(1, 4))]
+    if rng.random() < 0.1:
+        # seeds that collide under CPython's integer hash (modulus 2**61 - 1), and int/float-equal twins
+        psets.append(dict(psets[0], seed=psets[0]["seed"] + 2 ** 61 - 1))
     if rng.random() < 0.4:
         # a second parameter set that differs from the first only below one percent: same file name, other board
         q = dict(psets[0])
@@ -145,6 +148,8 @@ def gen(rng, tier, ctx):
                 bp[key2] = rng.choice(vals2)
                 bad = key + "+" + key2
             op = {"op": "gen_cli_bad", "params": bp, "bad": bad, "entropy": rng.randint(0, 2 ** 32)}
+            if rng.random() < 0.25:
+                op["no_inputs_dir"] = True      # run from a directory that has no inputs/ folder (yet)
         else:
             op = {"op": "restart", "entropy": rng.randint(0, 2 ** 32)}
         opl.append(op)
@@ -300,7 +305,25 @@ def execute(spec, w, ctx):
                                 " ".join(ops.gen_argv(p)[1:]), short(drawn[0], 300), _pp(p), short(dec(rb_["value"]), 300)),
                                 "cli-board-differs-from-library-board")
         elif kind == "gen_cli_bad":
+            import os as _os
+            moved = False
+            if op.get("no_inputs_dir"):
+                try:
+                    _os.rename(_os.path.join(w.root, "inputs"), _os.path.join(w.root, "inputs_elsewhere"))
+                    moved = True
+                    w.fired("no-inputs-directory")
+                except OSError:
+                    pass
+            dirs_before = w.fs.dirs()
             out, before, after, changed, wopens = genops.run_gen(w, op, common.env_cfg(op))
+            new_dirs = sorted(w.fs.dirs() - dirs_before)
+            if moved:
+                # (both snapshots were taken with the folder moved away, so `changed` is consistent)
+                import shutil as _sh
+                _sh.rmtree(_os.path.join(w.root, "inputs"), ignore_errors=True)
+                _os.rename(_os.path.join(w.root, "inputs_elsewhere"), _os.path.join(w.root, "inputs"))
+            if new_dirs:
+                changed = sorted(set(changed) | {d_ + "/" for d_ in new_dirs})
             events.append([i_op, "gen_cli_bad", op.get("bad"), out["status"], out.get("etype"), changed, wopens])
             what = "`roberta_generator.py %s` (%s out of range)" % (" ".join(ops.gen_argv(p)[1:]), op.get("bad"))
             w.fired("out-of-range-" + str(op.get("bad")))
